@@ -294,6 +294,14 @@ def MN.record (s : MN) (key : Nat) (kind : HKind) : MN :=
 def MN.execSet (c : Cfg) (s : MN) (node key val : Nat) : MN :=
   (s.setNode node ((s.node node).set c.cap (node + 1) key val)).record key (.set val)
 
+/-- a conditional SET: `(applied, state)`; refused = executor, replication state and pending deltas
+    untouched, but the operation is in the history (as a SET of that value: the checker looks at the
+    command, not at the reply) -/
+def MN.execSetCond (c : Cfg) (s : MN) (node key val : Nat) (nx : Bool) : Bool × MN :=
+  let has := ((s.node node).exec.get key).isSome
+  if has != nx then (true, s.execSet c node key val)
+  else (false, s.record key (.set val))
+
 def MN.execDel (c : Cfg) (s : MN) (node key : Nat) : Nat × MN :=
   let (r, nd) := (s.node node).del c.cap (node + 1) key
   (r, (s.setNode node nd).record key .other)
@@ -324,6 +332,10 @@ def MN.linearizable (s : MN) (key : Nat) : Bool :=
 
 inductive Op where
   | set (node key val : Nat)
+  /-- `SET key val NX` (`nx = true`) / `SET key val XX`: the executor applies it only if the key is
+      absent / present, and `SimulatedNode::execute` records it for replication only when it was
+      applied (`set_applied`, 9afba77: the reply is `OK`, not nil) -/
+  | setCond (node key val : Nat) (nx : Bool)
   | get (node key : Nat)
   | del (node key : Nat)
   /-- `advance_time_ms(adv); gossip_round()` -/
@@ -392,6 +404,9 @@ def step (style : Nat) (r : Run) (k : Nat) (op : Op) : Run :=
   | .set node key val =>
     let s := r.s.execSet c node key val
     emit r s s!"set n{node} {c.keyName key} {strOfCode val} -> SimpleString(\"OK\")"
+  | .setCond node key val nx =>
+    let (ok, s) := r.s.execSetCond c node key val nx
+    emit r s s!"set-{if nx then "nx" else "xx"} n{node} {c.keyName key} {strOfCode val} -> {if ok then "SimpleString(\"OK\")" else "BulkString(None)"}"
   | .get node key =>
     let (v, s) := r.s.execGet node key
     let resp := match v with | some v => s!"BulkString(Some({showBytes v}))" | none => "BulkString(None)"
@@ -516,6 +531,7 @@ def parseOps : Nat → List Nat → List Op → Option (List Op × List Nat)
     | some (keys, rest) => parseOps k rest (.untilConv mx keys :: acc)
     | none => none
   | k + 1, 11 :: rest, acc => parseOps k rest (.dump :: acc)
+  | k + 1, 12 :: node :: key :: val :: nx :: rest, acc => parseOps k rest (.setCond node key val (nx == 1) :: acc)
   | _, _, _ => none
 
 /-- `cnt` groups of `w` numbers -/
